@@ -169,6 +169,8 @@ def gen_pool(master, size):
                 j = r.choice(nd)
                 d["tensors"][j] = {"factory": {"of": d["tensors"][j], "mode": r.choice(["ok", "ok", "raise", "wrongshape", "wrongtype"])}}
         ctx = r.choice(CTXS) if not d["op"].startswith(("solve", "matches")) else []
+        if d["tensors"] and all("scalar" in t for t in d["tensors"]) and r.random() < 0.7:
+            d["backend"], ctx = None, []  # the scalar rule only acts when neither an argument nor a with-block selects the backend
         base = len(pool)
         pool.append({"d": d, "ctx": ctx, "alias_of": None})
         kinds = applicable_alias_kinds(d)
